@@ -607,6 +607,75 @@ func checkCopyDiscipline(r *Reporter, p *Prog) {
 	if nReads < 2 {
 		r.Fail("copy/in-out", mp+".syncedKVMap reads", "-", fmt.Sprintf("expected reads of []byte values from the map, found %d (vacuous)", nReads))
 	}
+	// an empty (or nil) value is a legal value of a key: whether a key is removed is never decided by
+	// looking at the value's nil-ness or length. In the map store, no removal from the shared map is
+	// reachable from a branch that found a []byte nil / of length zero.
+	{
+		nConds, nDeletes := 0, 0
+		badNil := ""
+		isBytes := func(e ast.Expr) bool {
+			t := info.TypeOf(e)
+			if t == nil {
+				return false
+			}
+			sl, ok := t.Underlying().(*types.Slice)
+			if !ok {
+				return false
+			}
+			b, ok := sl.Elem().Underlying().(*types.Basic)
+			return ok && b.Kind() == types.Byte
+		}
+		isSharedDelete := func(n ast.Node) bool {
+			c, ok := n.(*ast.CallExpr)
+			if !ok {
+				return false
+			}
+			if rawKey(c.Fun) == "delete" && len(c.Args) == 2 && fieldSel(info, c.Args[0], "m") {
+				return true
+			}
+			if se, isSel := ast.Unparen(c.Fun).(*ast.SelectorExpr); isSel && (se.Sel.Name == "delete" || se.Sel.Name == "deletePrefix") {
+				return strings.HasSuffix(strings.TrimPrefix(typeName(info.TypeOf(se.X)), "*"), "syncedKVMap")
+			}
+			return false
+		}
+		for _, fd := range p.AllFuncDecls(mp) {
+			if fd.Body == nil || strings.HasSuffix(p.Fset.Position(fd.Pos()).Filename, "_test.go") {
+				continue
+			}
+			f := newFuncCFG(p, info, fd.Body, funcKey(mp, fd))
+			nDeletes += len(f.Find(isSharedDelete))
+			f.forEachEdgeFact(func(e Edge, b *cfg.Block, ft fact) {
+				nConds++
+				var x ast.Expr
+				if v, _, isTest := nilTest(info, ft.Atom); isTest {
+					x = v
+				} else if be, ok := ast.Unparen(ft.Atom).(*ast.BinaryExpr); ok {
+					for _, side := range []ast.Expr{be.X, be.Y} {
+						if c, isCall := ast.Unparen(side).(*ast.CallExpr); isCall && rawKey(c.Fun) == "len" && len(c.Args) == 1 {
+							x = c.Args[0]
+						}
+					}
+				}
+				if x == nil || !isBytes(x) {
+					return
+				}
+				e2 := e
+				if w, found := f.reach(Point{e.From.Succs[e.Succ], 0}, &searchOpts{FromEdge: &e2}, func(pt Point, atExit bool) bool {
+					return !atExit && containsMatch(f.nodeAt(pt), isSharedDelete)
+				}); found && badNil == "" {
+					badNil = fmt.Sprintf("%s: in %s a removal from the shared map is reached from a branch on the nil-ness / length of the value %s (%s): an empty value is a legal value, setting it must create the key, not delete it", p.posStr(ft.Atom.Pos()), funcKey(mp, fd), exprKey(x), strings.Join(w, " -> "))
+				}
+			})
+		}
+		switch {
+		case badNil != "":
+			r.Fail("presence/no-nil-sentinel", mp, "-", badNil)
+		case nDeletes == 0 || nConds == 0:
+			r.Fail("presence/no-nil-sentinel", mp, "-", fmt.Sprintf("expected removals from the shared map and branch conditions in the package (found %d / %d) (vacuous)", nDeletes, nConds))
+		default:
+			r.Pass("presence/no-nil-sentinel", mp, "-", fmt.Sprintf("%d removal site(s), %d branch fact(s) examined: no removal depends on a value being nil or empty", nDeletes, nConds))
+		}
+	}
 	// Realm() hands out a copy
 	for _, fd := range p.Methods(mp, "mapDB") {
 		if fd.Name.Name != "Realm" || fd.Body == nil {
